@@ -157,6 +157,64 @@ CLAIMED["C16"] = dict(
     note="Floating-point formulas are not proved; relations are on reported integers with unit slack. Differences "
          "from the transcription that keep every relation are MODEL-DRIFT, not violations.")
 
+SHELL_NOTE = ("Binding = ShellSim: the real arm functions driven directly under a virtual clock with real loopback "
+              "sockets; the inline body of the event loop (timer periods, arm order, the drain after each arm is "
+              "exercised through drain_packet_queue only) is not executed. Trusted: the harness's frame "
+              "classification by type code, the 24-bit digest, the fault injection (socket write side shut down).")
+
+CLAIMED["C01"] = dict(
+    engine="tlc+shellsim", design_ref="4.1",
+    technique="TLA+ Forwarding.tla (per-link FIFOs, Route / FlushTick / LinkReset with the property as guards) "
+              "model-checked with the code's flush policy over every interleaving; ShellSim runs of the real "
+              "shell validated line by line by TLC against Forwarding (wire output digest for digest, in order)",
+    text="TLC explores every interleaving of datagrams, flush ticks, regime / status changes, link resets and send "
+         "failures on the bounded model (scaled thresholds, 3-4 datagrams, 2 links, no depth bound; 1e6-8e6 states) "
+         "and checks queue bound, empty-after-tick, nothing vanishes, no duplicate on a link, per-link order; "
+         "32k-190k arm calls of the real shell at the real constants (1..4 links, both modes, all regimes, loss, "
+         "black-holing, send failures, re-registration) are accepted only if every captured frame sequence is "
+         "exactly the queue the specification says was flushed.",
+    note=SHELL_NOTE + " A short sendmmsg cannot be provoked on loopback and is not covered; the 15 ms hold bound "
+         "is covered as `empty after every flush tick`, the timer itself is not executed.")
+CLAIMED["C08"] = dict(
+    engine="tlc+shellsim", design_ref="4.8",
+    technique="TLA+ Lifecycle.tla monitor (own record of arrivals, teardowns, environment) and a design-level "
+              "MC_Lifecycle model checked by TLC; ShellSim fault / adversarial-repair schedules validated by TLC "
+              "against the monitor",
+    text="TLC checks the life-cycle design (time-out, retry spacing, REG3 rejoin, keepalive liveness, fault budget) "
+         "on the complete 2-link graph incl. bounded rejoin (holds for 6 s, refuted for 4 s); recorded runs of the "
+         "real housekeeping / reconnect / uplink arms under loss, black-holes, lost replies, receiver amnesia, "
+         "REG_ERR, send failures and runtime timeouts 1-60 s -- with everything repaired right after the victim "
+         "link's 4th retry -- must satisfy: teardown only after the configured silence (or REG_ERR / send failure), "
+         "retry spacing >= 1 s / 5 s, connected only by REG3 with clean accounting, connected again within 30 s "
+         "(+ the configured timeout) of a quiet, delivering path.",
+    note=SHELL_NOTE + " One genuine defect (stale per-link copy of the timeout before the first selection) is a "
+         "recorded known finding. Back-off <= 120 s is exercised only up to the run length.")
+CLAIMED["C09"] = dict(
+    engine="tlc+shellsim", design_ref="4.9",
+    technique="TLA+ Relay.tla (one total Datagram action over class / length / link state with the relay, liveness "
+              "and proof rules as guards) checked by TLC against the code's dispatch table; ShellSim runs with "
+              "arbitrary byte strings validated by TLC against Relay",
+    text="Every datagram injected on any uplink in any link state (replies of the fake receiver and seeded byte "
+         "strings of 0..1500 bytes over every SRTLA / SRT type code, ACK / NAK payloads aimed at live numbers, "
+         "keepalive echoes with zero / future / stale / fresh timestamps, bursts of up to 200 datagrams through "
+         "drain_packet_queue) must be explained by Relay!Datagram: relayed byte-identical at least once iff not "
+         "SRTLA-internal and a client is known, nothing else delivered, liveness stamp refreshed by every "
+         "non-registration datagram, delivery proof only by an earned SRTLA ACK or an answered keepalive; a panic "
+         "is a line no specification accepts.",
+    note=SHELL_NOTE)
+CLAIMED["C14"] = dict(
+    engine="tlc+shellsim", design_ref="4.14",
+    technique="TLA+ Keepalive.tla monitor (cadence per housekeeping pass, frame fields, independent "
+              "outstanding-probe notion) and a design-level MC_Keepalive model checked by TLC; ShellSim runs "
+              "validated by TLC against the monitor",
+    text="TLC checks cadence and sampling rules on the one-link model over pass spacings 1.0 / 1.5 s and every echo "
+         "kind; in the recorded runs every keepalive captured on an uplink must be a 38-byte extended frame whose "
+         "10-byte head carries the pass time and whose telemetry equals the link's window / in-flight / loss count "
+         "/ rate at the start of the pass, at most one pass may go by without one on a live link, and an RTT "
+         "sample may be taken only from an echo of >= 10 bytes with 0 < RTT <= 10 s while a probe sent since the "
+         "last echo / reset is outstanding; the smoothed RTT stays finite and non-negative.",
+    note=SHELL_NOTE + " The 1 s timer itself is not executed; passes are 1.0-1.5 s apart in the schedules.")
+
 PENDING = {}
 
 def main():
